@@ -622,6 +622,7 @@ class Executor:
                     key = fn._qual
                     setter = self.find_setter(kl.qual, attr)
                     if setter is not None:
+                        self.null_check(obj, node)
                         sm, sfn, sq = setter
                         self.call(BoundMethod(obj, Closure(sfn, None, sm, cls=sq)),
                                   [v], {}, node)
